@@ -970,7 +970,15 @@ def call_method(eng, fobj, args, kwargs, fr, node):
             eng.assign(tnode, V(base.ty, z3.Extract(base.t, 0, n - 1)), fr)
             return item
         if attr == 'remove':
-            raise_unsupported('list.remove')
+            # removes an occurrence of the item (the first; any index holding the item over-approximates that);
+            # ValueError when absent
+            item = T.coerce(args[0], base.ty[1])
+            n = z3.Length(base.t)
+            eng.prove_internal('list.remove(x): x not in list', z3.Contains(base.t, z3.Unit(item.t)), 'ValueError')
+            kx = eng.fresh(INT, 'rm_at')
+            eng.assume(z3.And(kx.t >= 0, kx.t < n, base.t[kx.t] == item.t))
+            eng.assign(tnode, V(base.ty, concat(z3.Extract(base.t, 0, kx.t), z3.Extract(base.t, kx.t + 1, n - kx.t - 1))), fr)
+            return VNONE
         if attr == 'extend':
             other = args[0]
             lst = base
